@@ -13,6 +13,8 @@
 //!         6 target answers and half-closes, then (after the local client has seen EOF) closes completely while
 //!           the local client keeps uploading: the upload must fail (l_end 1) instead of going on for ever (0);
 //!           the target reports only that what it received is a prefix of the upload (t_len 0, t_end 0)
+//!         7 target half-closes at once and drains slowly; local uploads 3 MB, half-closes, reads to EOF: every byte of
+//!           the upload must arrive before the target sees EOF (the chunk lists are ignored)
 //!   every local connection first sends a 4-byte tag (part of the payload) naming its target script
 //!   result per connection: l_len l_ok l_end t_len t_ok t_end
 //!     (len = bytes received, ok = they are exactly the peer's byte stream so far, end: 1 clean EOF,
@@ -141,6 +143,28 @@ async fn target_conn(mut s: TcpStream, scripts: Scripts, obs: ObsMap) {
         3 => {
             write_chunks(&mut w, &data, &sc.t_chunks).await;
             Obs { len: 0, ok: 1, end: 0 }
+        }
+        7 => {
+            let _ = w.shutdown().await;
+            // a slow consumer: small reads with pauses
+            let mut got = 0usize;
+            let mut ok = 1u64;
+            let mut buf = vec![0u8; 32768];
+            let end = loop {
+                match tokio::time::timeout(TMO, r.read(&mut buf)).await {
+                    Err(_) => break 0,
+                    Ok(Err(_)) => break 2,
+                    Ok(Ok(0)) => break 1,
+                    Ok(Ok(n)) => {
+                        if got + n > expect.len() || buf[..n] != expect[got..got + n] {
+                            ok = 0;
+                        }
+                        got += n;
+                        tokio::time::sleep(Duration::from_millis(3)).await;
+                    }
+                }
+            };
+            Obs { len: got as u64, ok, end }
         }
         6 => {
             write_chunks(&mut w, &data, &sc.t_chunks).await;
@@ -358,8 +382,8 @@ impl World {
     }
 
     async fn tcp_conn(&self, entry: u64, variant: u64, tag: u32, shape: u64, l_chunks: Vec<usize>, t_chunks: Vec<usize>) -> Vec<u64> {
-        let total_l: usize = if shape == 6 { 1 << 21 } else { l_chunks.iter().sum() };
-        let total_t: usize = t_chunks.iter().sum();
+        let total_l: usize = if shape == 6 { 1 << 21 } else if shape == 7 { 3 << 20 } else { l_chunks.iter().sum() };
+        let total_t: usize = if shape == 7 { 0 } else { t_chunks.iter().sum() };
         self.scripts.lock().unwrap().insert(tag, TScript { shape, total_local: total_l, t_chunks: t_chunks.clone() });
         let Some(s) = tokio::time::timeout(TMO, self.open(entry, variant, shape == 5)).await.ok().flatten() else {
             // a refused target may already show as a failed entry handshake: the connection is closed
@@ -403,6 +427,13 @@ impl World {
                 write_chunks(&mut w, &data, &l_chunks).await;
                 let _ = w.flush().await;
                 Obs { len: 0, ok: 1, end: 0 }
+            }
+            7 => {
+                let _ = w.write_all(&tagb).await;
+                let big: Vec<usize> = vec![1 << 16; total_l >> 16];
+                write_chunks(&mut w, &data, &big).await;
+                let _ = w.shutdown().await;
+                read_all(&mut r, &[]).await
             }
             6 => {
                 let _ = w.write_all(&tagb).await;
@@ -646,7 +677,10 @@ pub fn generate(a: &Args, out: &mut Out) {
     // one case per (entry, shape) first
     if !a.mode.contains("random-only") {
         for (entry, variant) in [(0u64, 0u64), (1, 0), (2, 0), (2, 1), (3, 0), (4, 0), (5, 0)] {
-            for shape in 0..7u64 {
+            for shape in 0..8u64 {
+                if shape == 7 && !matches!(entry, 0 | 2 | 5) {
+                    continue;
+                }
                 if shape == 5 && entry == 1 {
                     continue;
                 }
@@ -666,7 +700,7 @@ pub fn generate(a: &Args, out: &mut Out) {
             let nconn = if rng.chance(1, 3) { 2 + rng.below(4) } else { 1 };
             let mut c = vec![1, 1, entry, variant, nconn];
             for _ in 0..nconn {
-                let mut shape = rng.pick(&[0u64, 0, 1, 1, 2, 2, 2, 3, 4, 5, 6]);
+                let mut shape = rng.pick(&[0u64, 0, 1, 1, 2, 2, 2, 3, 4, 5, 6, 0, 1, 2, 3, 4, 7]);
                 if shape == 5 && entry == 1 {
                     shape = 2;
                 }
